@@ -112,6 +112,11 @@ type World struct {
 	Root      sdk.Context
 	Timers    []TimerCfg
 
+	epochKeys [][]byte
+	Genesis   State
+	cur       State
+	haveCur   bool
+
 	// set per block by the driver
 	plan  []Dev
 	block int
@@ -249,17 +254,19 @@ func (w *World) signal(ctx sdk.Context, sub, kind int, id string, n int64) error
 	return nil
 }
 
-// NewWorld builds the keeper exactly as the module's own tests do (IAVL-mounted stores over a MemDB, nop
-// logger), registers the two subscribers through SetHooks(NewMultiEpochHooks(..)) as the application does,
-// and imports the timers through InitGenesis at height 0 / genesisTime.
+// NewWorld builds the keeper over an in-memory multistore (two KV stores, dbadapter over MemDB, nop logger)
+// the way the module's own tests do (they mount IAVL over the same MemDB; the property only concerns KV
+// semantics and a plain DB store keeps state cloning a matter of copying two entries), registers the two
+// subscribers through SetHooks(NewMultiEpochHooks(..)) as the application does, and imports the timers
+// through InitGenesis at height 0 / genesisTime.
 func NewWorld(timers []TimerCfg) *World {
 	w := &World{Timers: timers}
 	w.epochsKey = storetypes.NewKVStoreKey(types.StoreKey)
 	w.markKey = storetypes.NewKVStoreKey("verifmarks")
 	db := dbm.NewMemDB()
 	cms := store.NewCommitMultiStore(db, log.NewNopLogger(), metrics.NewNoOpMetrics())
-	cms.MountStoreWithDB(w.epochsKey, storetypes.StoreTypeIAVL, db)
-	cms.MountStoreWithDB(w.markKey, storetypes.StoreTypeIAVL, db)
+	cms.MountStoreWithDB(w.epochsKey, storetypes.StoreTypeDB, nil)
+	cms.MountStoreWithDB(w.markKey, storetypes.StoreTypeDB, nil)
 	if err := cms.LoadLatestVersion(); err != nil {
 		panic(err)
 	}
@@ -269,17 +276,49 @@ func NewWorld(timers []TimerCfg) *World {
 	gs := types.GenesisState{}
 	for _, t := range timers {
 		gs.Epochs = append(gs.Epochs, types.EpochInfo{Identifier: t.ID, StartTime: at(t.Start), Duration: time.Duration(t.Dur)})
+		w.epochKeys = append(w.epochKeys, append(append([]byte{}, types.KeyPrefixEpoch...), []byte(t.ID)...))
 	}
 	if err := gs.Validate(); err != nil {
 		panic(err)
 	}
 	w.K.InitGenesis(w.Root, gs)
+	w.Genesis = w.Snapshot(w.Root)
+	w.cur, w.haveCur = w.Genesis, true
 	return w
+}
+
+// State is the literal content of the epochs store: the raw stored record of each configured timer. The
+// subscribers' store is empty at the start of every block (the driver never commits it), so State plus the
+// block time and height is everything the next block depends on.
+type State [2]string
+
+// Snapshot reads the epochs store content through ctx.
+func (w *World) Snapshot(ctx sdk.Context) State {
+	var s State
+	st := ctx.KVStore(w.epochsKey)
+	for i, k := range w.epochKeys {
+		s[i] = string(st.Get(k))
+	}
+	return s
+}
+
+// SetState makes s the content of the root epochs store.
+func (w *World) SetState(s State) {
+	if w.haveCur && w.cur == s {
+		return
+	}
+	st := w.Root.KVStore(w.epochsKey)
+	for i, k := range w.epochKeys {
+		if !w.haveCur || w.cur[i] != s[i] {
+			st.Set(k, []byte(s[i]))
+		}
+	}
+	w.cur, w.haveCur = s, true
 }
 
 // BlockResult is everything observable about one driven block.
 type BlockResult struct {
-	Ctx      sdk.Context // the branch after the block (the parent itself if the block was aborted)
+	Ctx      sdk.Context // the branch the block ran on
 	Log      []Inv
 	Events   sdk.Events
 	Panicked bool
@@ -287,13 +326,17 @@ type BlockResult struct {
 }
 
 // RunBlock drives the module's real BeginBlocker for block number `block` at time genesis+tOff on a fresh
-// branch of parent. If anything propagates out of BeginBlocker the branch is dropped (a block whose
-// BeginBlock panics is never committed) and the parent state is what the next block sees.
-func (w *World) RunBlock(parent sdk.Context, block int, tOff int64, plan []Dev) BlockResult {
-	child, _ := parent.CacheContext()
-	child = child.WithBlockHeight(int64(block)).WithBlockTime(at(tOff)).WithEventManager(sdk.NewEventManager())
+// branch of the root store holding state s (the way the application runs it on a branch of the committed
+// state). The branch is never written back: the caller reads the outcome from it and, to continue from the
+// resulting state, passes its Snapshot to the next RunBlock. If anything propagates out of BeginBlocker
+// the block counts as dropped (a block whose BeginBlock panics is never committed) and the next block
+// starts from s again.
+func (w *World) RunBlock(s State, block int, tOff int64, plan []Dev) BlockResult {
+	w.SetState(s)
+	child, _ := w.Root.CacheContext()
+	child = child.WithBlockHeight(int64(block)).WithBlockTime(at(tOff))
 	w.plan, w.block, w.log = plan, block, w.log[:0]
-	res := BlockResult{}
+	res := BlockResult{Ctx: child}
 	func() {
 		defer func() {
 			if r := recover(); r != nil {
@@ -303,10 +346,7 @@ func (w *World) RunBlock(parent sdk.Context, block int, tOff int64, plan []Dev) 
 		w.K.BeginBlocker(child)
 	}()
 	res.Log = append([]Inv(nil), w.log...)
-	if res.Panicked {
-		res.Ctx = parent
-	} else {
-		res.Ctx = child
+	if !res.Panicked {
 		res.Events = child.EventManager().Events()
 	}
 	return res
